@@ -89,7 +89,12 @@ def handle (op : String) (a r : Json) : Except String Reply := do
     if !fired then
       pure { m := jObj [("unmodelled", Json.str "the harness could not place the close between collection and send")], prop := none, why := "", sig := "" }
     else
-    let stampAtCollection : Bool := Receptor.Facts.ads_stamp = "collect:Time=time.Now(),under-listenerLock;send:unstamped"
+    let variant := (getStr a "variant").toOption.getD ""
+    -- which regenerated fact decides the order of the two time stamps in this scenario: where an advertisement is
+    -- stamped (close during the send), or where Close stamps the withdrawal (a round just before Close gets the lock)
+    let stampAtCollection : Bool :=
+      if variant == "round-before-close-lock" then Receptor.Facts.ads_close_order = "lock<unregister<withdraw"
+      else Receptor.Facts.ads_stamp = "collect:Time=time.Now(),under-listenerLock;send:unstamped"
     let rc : OwnerRace := { collectAt := 1, closeAt := 2, sendAt := 3 }
     let node : Node := [1]
     let svc : Svc := [2]
